@@ -106,6 +106,8 @@ func checkC08(p *core.Program, r *core.Report) {
 	r.Rule("R2", "every range over a map in engine/inspection/migration packages is order-insensitive by construction (keyed stores, append-then-total-sort, commutative accumulation, constant existential return) or is listed with a confirmed reason")
 	r.Rule("R4", "a call leaves no trace for the next one in its inputs: an exported function of the migration, inspection or query packages does not write into a map it is handed as a parameter (directly, through a closure, or in a function it passes the map to) — Clone's memo of old-to-new UUIDs written into the caller's mapping makes the next Clone with that mapping depend on the calls before it")
 	c08R4(p, r)
+	r.Rule("R5", "nothing a session computes depends on what another session did to shared memory: the shared-write audit of the session-phase entry points is an obligation here too (imported from C09/R1) — a write into a flow definition or asset that every session reads makes the output depend on goroutine timing and on the sessions that ran before")
+	importObligations(p, r, "C09", map[string]bool{"R1": true}, "R5", "output depends on incidental process state")
 	r.Rule("R3", "the four named sorted renderers (XObject.Properties, Results.format, FieldValues.Context, migrations.objectProperties) are instances of append-then-sort")
 	r.Assumption("dependencies (gocommon, decimal, validator, antlr runtime) are deterministic for equal inputs")
 
